@@ -109,6 +109,7 @@ def fragment_function(c):
         fn = next(n for n in fn.body if isinstance(n, (ast.FunctionDef, ast.ClassDef)) and n.name == part)
     frag = c.cls.fragment
     first, last = frag["first"].strip(), frag["last"].strip()
+    nth = int(frag.get("last_nth", 1))
 
     def head(st):
         return ast.unparse(st).splitlines()[0].strip()
@@ -116,9 +117,12 @@ def fragment_function(c):
     def search(body):
         for i, st in enumerate(body):
             if head(st) == first:
+                seen = 0
                 for j in range(i, len(body)):
                     if head(body[j]) == last:
-                        return body[i:j + 1]
+                        seen += 1
+                        if seen == nth:
+                            return body[i:j + 1]
             for attr in ("body", "orelse", "finalbody"):
                 sub = getattr(st, attr, None)
                 if isinstance(sub, list) and sub:
